@@ -967,14 +967,29 @@ func unterminatedLiteralPosition(c *Ctx, rule string) {
 			continue
 		}
 		for _, call := range callsIn(fn) {
-			if !staticCalleeIs(call, "(*lang.Lexer).error") || len(call.Common().Args) < 3 {
+			// Lexer.error itself, or a helper of the lexer that hands position and message on to it
+			// (l.fail(pos, msg)): the call that names the message names the position
+			callee := call.Common().StaticCallee()
+			if callee == nil || callee.Signature.Recv() == nil || !strings.HasPrefix(shortName(callee), "(*lang.Lexer).") {
 				continue
 			}
-			if !strings.Contains(p.Render(call.Common().Args[2]), "unexpected EOF") {
+			msgAt, posAt := -1, -1
+			for i, a := range call.Common().Args {
+				if i == 0 {
+					continue
+				}
+				if b, ok := a.Type().Underlying().(*types.Basic); ok && b.Kind() == types.Int && posAt < 0 {
+					posAt = i
+				}
+				if b, ok := a.Type().Underlying().(*types.Basic); ok && b.Kind() == types.String && strings.Contains(p.Render(a), "unexpected EOF") {
+					msgAt = i
+				}
+			}
+			if msgAt < 0 || posAt < 0 {
 				continue
 			}
 			n++
-			pos := p.Render(call.Common().Args[1])
+			pos := p.Render(call.Common().Args[posAt])
 			c.check(pos == "l.tokenStart", rule, fmt.Sprintf("unterminated-literal-position %s #%d", shortName(fn), n), p.InstrPos(call), "positioned at the token start", "the `unexpected EOF` error of an unterminated literal is positioned at "+pos+", not at the opening delimiter: when the program ends in a newline that offset is the newline itself, and the error names the empty line after the program (column -1) instead of the line the literal starts on")
 		}
 	}
